@@ -27,6 +27,7 @@ fn budget(t: Tier) -> Budget {
         cases: t.pick(200_000, 10_000_000),
         max_len: 40,
         shards: 16,
+        dual_profile: false,
     }
 }
 
